@@ -21,7 +21,12 @@ pub fn extend_rest<T>(v: &mut Vec<T>, it: IntoIter<T>)
 /// (a free function, so that the element type of the as yet untyped local `nodes` is fixed by unification)
 pub open spec fn nodes_of<N, Ix: IndexType>(v: Vec<Node<Option<N>, Ix>>) -> Seq<Node<Option<N>, Ix>> { v@ }
 
-//@ item src/graph_impl/stable_graph/serialization.rs | - | struct DeserStableGraph
+// (as in graph_serde.rs: the helpers the serde attributes name are pinned by hash)
+//@ pin src/graph_impl/stable_graph/serialization.rs | - | fn deser_stable_graph_nodes | 1bc897307a
+//@ pin src/graph_impl/stable_graph/serialization.rs | - | fn deser_stable_graph_edges | 1f11caffef
+//@ pin src/graph_impl/stable_graph/serialization.rs | - | fn ser_stable_graph_edges | a5a55b6c0d
+
+//@ item src/graph_impl/stable_graph/serialization.rs | - | struct DeserStableGraph | serde=6696fee841
 // Deserialization representation for StableGraph
 // Keep in sync with serialization and Graph
 pub struct DeserStableGraph<N, E, Ix> {
